@@ -3,8 +3,9 @@
 import Driver.Common
 import GivaroModel.Model.Montgomery
 import GivaroModel.Spec.MontgomerySpec
--- @driver-mode montgomery Driver.montgomeryLine
-namespace Driver
+-- @driver-mode montgomery Driver.Montgomery.montgomeryLine
+namespace Driver.Montgomery
+open Driver
 open Givaro Givaro.Model.Montgomery Givaro.Spec.Montgomery
 
 /-- outs = raw₀ conv₀ raw₁ conv₁ …; every conv must be the expected residue and every raw its Montgomery form -/
@@ -342,4 +343,4 @@ def montgomeryLine (line : String) : String :=
             let kind := if !specOk && !modelOk then "BOTH" else if !specOk then "SPEC" else "MODEL"
             s!"DIFF kind={kind} model={showInts c.model} | {line.trimAscii.toString}"
 
-end Driver
+end Driver.Montgomery
